@@ -369,7 +369,7 @@ func runCrashCase(p eng.Profile, c crashCase, tornAll bool, res *crashOut) {
 		midPoints = []string{"cmp.closed", "cmp.renamed", "cmp.filled", "cmp.swapped", "snap.tmp_written", "snap.renamed", "snap.truncated"}
 	case "VImportCommit":
 		midPoints = []string{"snap.tmp_written", "snap.renamed", "snap.truncated"}
-	case "SaveSnapshot", "RewriteAOF", "Reopen", "VDeleteCut", "":
+	case "SaveSnapshot", "RewriteAOF", "Reopen", "VDeleteCut", "SnapshotCut", "":
 	default:
 		points["op.journaled"] = img("journaled")
 	}
@@ -418,7 +418,7 @@ func runCrashCase(p eng.Profile, c crashCase, tornAll bool, res *crashOut) {
 			continue
 		}
 		switch name {
-		case "Reopen", "Refine", "Vacuum", "GraphVacuum", "SaveSnapshot", "VGetConnections":
+		case "Reopen", "Refine", "Vacuum", "GraphVacuum", "SaveSnapshot", "VGetConnections", "SnapshotCut":
 			continue
 		}
 		break
